@@ -158,7 +158,7 @@ def _step(st, objs):
     if op == "props":
         c = objs[st["obj"]]
         a, b = _canon_full(c), _canon_full(c)
-        return dict(model=a["graph"], full=[a, b])
+        return dict(model=a["graph"] if a["graph"] is not None else [-1], full=[a, b])
     if op == "mutate":
         c = objs[st["obj"]]
         for g in (c.canonical_reactant_graph, c.canonical_product_graph, c.raw_reactant_graph, c.raw_product_graph):
